@@ -1062,7 +1062,8 @@ def indexfacts(run, fx, rule='CONST'):
                 continue
             n += 1
             it_ = fn.render(ix)
-            ok = any(f[0] == it_ and f[1] == '<' and want in f[2] for f in dom.facts_at(fn, e['i']))
+            wants = (want, '_num_glyphs') if want == 'numGlyphs' else (want,)          # the getter, or the member it returns
+            ok = any(f[0] == it_ and f[1] == '<' and any(w_ in f[2] for w_ in wants) for f in dom.facts_at(fn, e['i']))
             if not ok:
                 bad = bad or (e, it_, base)
         if n < 1:
